@@ -702,6 +702,12 @@ SCAN_REMOVED = dict(region='scan_removed', file='cmdline/scan.c', begin='/* chec
                     proto='static void region_scan_removed(struct snapraid_scan *scan, struct snapraid_disk *disk, int is_diff)', prologue='\ttommy_node *node;\n\tchar esc_buffer[ESC_MAX];', epilogue='\t(void)esc_buffer;')
 
 
+def scanhelpers_obs():
+    return [Ob('scan.link_dir_set_changes', 'harness/h_scanhelpers.c', 'h_scan_set_changes', unwind=6, small_path=True, timeout=600, mem=6, cost=3, replay=False,
+               functions=['scan_link_insert / scan_link_remove / scan_emptydir_insert / scan_emptydir_remove (cmdline/scan.c, whole translation unit; containers and deallocation routed to recording stubs)'],
+               note='each of the four steps, state already marked for saving or not')]
+
+
 def scanfile_obs():
     F = 'harness/h_scanfile.c'
     return [Ob('scan.removed.region', F, 'h_scan_removed', inject=[SCAN_FILE, SCAN_EMPTYDIR, SCAN_LINK, SCAN_REMOVED], defs={'VERIF_REMOVED': None}, unwind=6, small_path=True, timeout=600, mem=6, cost=4, replay=False, kind='bounded',
@@ -826,7 +832,7 @@ def c12(tier, seed):
 def c11(tier, seed):
     I = 'harness/h_interlock.c'
     P = 'harness/h_psize.c'
-    return scanfile_obs() + filecopy_obs() + [
+    return scanhelpers_obs() + scanfile_obs() + filecopy_obs() + [
         Ob('scan.diff_verdict.region', I, 'h_diff_verdict', inject=ILK_REGIONS, unwind=6, small_path=True, timeout=900, mem=6, cost=5, kind='bounded', bound='1..3 data disks; every value (< 2^30) of the seven per-disk change counters',
            functions=['state_diffscan: region "total.count_equal = 0" .. end of the function (cmdline/scan.c, extracted mechanically)'],
            note='every counter vector per disk, parity_is_invalid true / false, diff and scan'),
